@@ -7,6 +7,8 @@ R4  registers are only created from the running counter, which is bumped on the 
     inputs are loaded first, party by party, bit by bit, into registers 0..n
 R5  every conversion entry point goes through the one allocator
 R6  a register is reused / freed only when its wire was removed from the wire map
+R1b every operand field of every gate kind of circuit::Wire is recorded in last_use_map with the index of the reading gate
+R7  find_out_reg removes an operand from wire_map only on the edge `last_used[operand] == gate_id`
 """
 from .. import mir
 from ..core import AnchorMissing, Finding, RuleResult
@@ -22,7 +24,9 @@ LEVEL_TEXT = (
     "taken from the maps / free list), next_reg is incremented on every path that builds one, max_reg_count is next_reg, and the "
     "input instructions are emitted first with party = index of the party and input = index of the bit; (R5) the three From impls "
     "and CircuitType::to_register all call RegisterAllocator::new and convert_circuit; (R6) a register is reused or put on the free "
-    "list only when it comes out of wire_map.remove (its wire left the map), never from an index read.")
+    "list only when it comes out of wire_map.remove (its wire left the map), never from an index read; (R1b) every operand field "
+    "of every Wire variant is inserted into last_use_map with the enumerate index of the same iteration; (R7) each wire_map.remove in "
+    "find_out_reg is dominated by the true edge of `last_used[that operand] == gate_id`.")
 LEVEL_NOTE = "Trusted: rustc MIR; HashMap / Vec behave as documented."
 EXPLANATION = "Functions analysed: register_circuit::{last_use_map, RegisterAllocator::convert_circuit, find_out_reg, From impls}, CircuitType::to_register."
 NOT_DECIDED = "bit-for-bit equivalence of the converted circuit; sufficiency of the register count (follows from R4 only together with the reuse logic, which is value-level)"
@@ -56,6 +60,75 @@ def rule_r1(ctx):
             res.ok({"verdict": "pinned keys are circ.output_gates"})
         else:
             res.bad(Finding("R1", body.id, "pin not keyed by output gates", "the pinned wires are not the circuit's outputs", t["sp"]))
+    return res
+
+
+def rule_r1b(ctx):
+    res = RuleResult("R1b", "every operand of every gate kind is recorded as a use at the gate's own index")
+    body = ctx.body("register_circuit::last_use_map")
+    ins = [(b, t) for b, t in body.calls() if mir.last_seg(mir.callee(t) or "") == "insert" and "HashMap" in (mir.callee(t) or "")]
+    adt = ctx.adt("circuit::Wire")
+    want = set()
+    for v in adt["variants"]:
+        if v["name"] == "Input":
+            continue  # the payload of Input is the position of the input bit, not a wire that is read
+        for i, f in enumerate(v["fields"]):
+            if f["ty"] == "usize":
+                want.add((v["name"], str(i)))
+    if len(want) < 5 and not res.findings:
+        raise AnchorMissing("R1b: circuit::Wire no longer has the five operand fields (Xor, And: 2, Not: 1): %s" % sorted(want))
+    have = {}
+    for b, t in ins:
+        for (r, p) in body.trace_operand(t["args"][1]):
+            if r[0] == "iter" and len(p) == 2 and p[0].startswith("as "):
+                val_ok = all(rr[0] == "index" for (rr, pp) in body.trace_operand(t["args"][2])) and len(body.trace_operand(t["args"][2])) > 0
+                have[(p[0][3:], p[1])] = (val_ok, t["sp"])
+    for w in sorted(want):
+        if w not in have:
+            res.bad(Finding("R1b", body.id, "operand %s of %s gates is never recorded as a use" % (w[1], w[0]),
+                            "the register of a wire read through this operand may be handed out again before the gate is executed", body.fn["sp"]))
+        elif not have[w][0]:
+            res.bad(Finding("R1b", body.id, "use of operand %s of %s gates recorded at a different index" % (w[1], w[0]),
+                            "the last use must be the index of the reading gate (the enumerate counter of the same iteration)", have[w][1]))
+        else:
+            res.ok({"operand": "%s.%s" % w, "verdict": "recorded with the index of the reading gate"})
+    return res
+
+
+def rule_r7(ctx):
+    """find_out_reg removes an operand from the wire map only on the edge where its last use is the current gate."""
+    from .C02 import _dominated_by_edges
+    res = RuleResult("R7", "an operand's register is released only when this gate is its last use")
+    body = ctx.body(FIND)
+    rem = [(b, t) for b, t in body.calls() if mir.last_seg(mir.callee(t) or "") == "remove" and any(p and p[-1] == "wire_map" for (r, p) in body.trace_operand(t["args"][0]))]
+    if len(rem) < 2 and not res.findings:
+        raise AnchorMissing("R7: find_out_reg no longer removes both operands from wire_map (found %d removals)" % len(rem))
+    gets = [(b, t) for b, t in body.calls() if mir.last_seg(mir.callee(t) or "") == "get" and any(p and p[-1] == "last_used" for (r, p) in body.trace_operand(t["args"][0]))]
+    for b, t in rem:
+        key = {(r, tuple(p)) for (r, p) in body.trace_operand(t["args"][1])}
+        ok = False
+        for gb, blk in enumerate(body.blocks):
+            for st in blk["stmts"]:
+                if st["k"] == "assign" and st["rv"]["k"] == "binop" and st["rv"]["op"] in ("Eq", "Ne"):
+                    sides = [body.trace_operand(st["rv"]["l"]), body.trace_operand(st["rv"]["r"])]
+                    is_gate = [any(r == ("arg", 2) and not p for (r, p) in sd) for sd in sides]
+                    from_get = [False, False]
+                    for i, sd in enumerate(sides):
+                        for (r, p) in sd:
+                            if r[0] == "call" and any(r[1] == g for g, _ in gets):
+                                gt = body.term(r[1])
+                                gkey = {(r2, tuple(p2)) for (r2, p2) in body.trace_operand(gt["args"][1])}
+                                if gkey == key:
+                                    from_get[i] = True
+                    if (is_gate[0] and from_get[1]) or (is_gate[1] and from_get[0]):
+                        edges = mir.equality_edges(body, st)
+                        if edges and _dominated_by_edges(body, edges, b):
+                            ok = True
+        if ok:
+            res.ok({"site": "wire_map.remove at line %d" % t["sp"][1], "verdict": "only on the edge last_used[operand] == gate_id"})
+        else:
+            res.bad(Finding("R7", body.id, "operand released although a later gate still reads it",
+                            "wire_map.remove of an operand is not guarded by `last_used[that operand] == gate_id`: its register is reused while the wire is still live", t["sp"]))
     return res
 
 
@@ -280,6 +353,6 @@ def rule_r5(ctx):
 
 def run(ctx):
     out = []
-    for r in ctx.run_rules([rule_r1, rule_r2_r3, rule_r4, rule_r5, rule_r6]):
+    for r in ctx.run_rules([rule_r1, rule_r1b, rule_r2_r3, rule_r4, rule_r5, rule_r6, rule_r7]):
         out.extend(r if isinstance(r, list) else [r])
     return out
